@@ -973,7 +973,7 @@ def markup_traces(ck, seen):
             for n in Tm:
                 if n["k"] == "char":
                     key = n["fk"] if conv == "html" else n["wk"]
-                    n["a"] = ids.setdefault(key, len(ids))
+                    n["a"] = ids.setdefault(key, len(ids)) + (50000 if (conv == "hocr" and n.get("wstyle")) else 0)
             con = M.MarkupConcrete(0)
             con.nums = M.WordBoxes(M.render_nums(Tp, objs, conv), Tp, objs)
             devs = M.HTML_DEVS if conv == "html" else M.HOCR_DEVS
